@@ -289,6 +289,10 @@ fn kfun(m: &Km, a: &[f64], b: &[f64], epsf: f64) -> Option<(f64, f64)> {
         Km::Gauss(e) => {
             let q = sqdist(a, b) / e;
             let v = (-q).exp();
+            if v == 0.0 {
+                // far below F's range as well (q is beyond 745): nothing but an exact zero
+                return Some((0.0, 0.0));
+            }
             Some((v, v * (1.0 + (d + 3.0) * q)))
         }
         Km::Poly(c, g) => {
@@ -320,6 +324,16 @@ fn kfun(m: &Km, a: &[f64], b: &[f64], epsf: f64) -> Option<(f64, f64)> {
 
 fn gen_method<F: Float>(rng: &mut Rng, rows: &[Vec<f64>]) -> Km {
     let km = gen_method_raw(rng, rows);
+    // "any bandwidth": now and then one from the ends of F's range (subnormal, smallest normal,
+    // tiny, huge) - exp(-d/eps) is 1 on the diagonal and for duplicated records, 0 or 1 elsewhere
+    if let Km::Gauss(_) = km {
+        if rng.gen_bool(0.1) {
+            let tiny = f(F::min_positive_value());
+            let huge = f(F::max_value());
+            let e = *gen::pick(rng, &[tiny / 8.0, tiny / 1024.0, tiny, tiny * 1e3, tiny.sqrt(), huge / 4.0, huge.sqrt()]);
+            return Km::Gauss(e);
+        }
+    }
     // keep polynomial values (and their row sums) far from the overflow threshold of F
     if let Km::Poly(c, mut g) = km {
         let mut smax: f64 = 0.0;
